@@ -15,15 +15,38 @@ impl Blob {
 // ---- library stand-ins (R6; trusted): flate2::read::{GzEncoder, GzDecoder} over a byte slice, read to the end
 #[verifier::external_body] pub struct GzLevel { }
 #[verifier::external_body] pub fn gz_best() -> GzLevel { unimplemented!() }
-#[verifier::external_body] pub struct GzEncoder { }
-impl GzEncoder {
-	pub uninterp spec fn input(&self) -> Seq<u8>;
+// flate2's GzEncoder exists as a read adapter (wraps the input, the compressed stream is read from it: what the code uses) and as a
+// write adapter (wraps the sink, input is written into it, `finish` returns the sink); both are modelled so that a switch between
+// them stays decidable. `fed()`: the uncompressed bytes the encoder has been given so far.
+pub trait GzArg { spec fn as_input(&self) -> Seq<u8>; }
+impl<'a> GzArg for &'a [u8] { open spec fn as_input(&self) -> Seq<u8> { self@ } }
+impl GzArg for Vec<u8> { open spec fn as_input(&self) -> Seq<u8> { Seq::<u8>::empty() } }
+#[verifier::external_body] #[verifier::reject_recursive_types(T)] pub struct GzEncoder<T> { t: T }
+impl<T: GzArg> GzEncoder<T> {
+	pub uninterp spec fn fed(&self) -> Seq<u8>;
 	#[verifier::external_body]
-	pub fn new(r: &[u8], level: GzLevel) -> (e: GzEncoder) ensures e.input() == r@ { unimplemented!() }
-	// std::io::Read::read_to_end on the adapter: appends the complete gzip stream of the wrapped input
+	pub fn new(r: T, level: GzLevel) -> (e: GzEncoder<T>) ensures e.fed() == r.as_input() { unimplemented!() }
+}
+impl<'a> GzEncoder<&'a [u8]> {
+	// std::io::Read::read_to_end on the read adapter: appends the complete gzip stream of the wrapped input
 	#[verifier::external_body]
 	pub fn read_to_end(&mut self, buf: &mut Vec<u8>) -> (r: Result<usize, VErr>)
-		ensures r is Ok ==> exists|o: Seq<u8>| final(buf)@ == old(buf)@ + o && #[trigger] dec_gzip(o) == Some(old(self).input())
+		ensures r is Ok ==> exists|o: Seq<u8>| final(buf)@ == old(buf)@ + o && #[trigger] dec_gzip(o) == Some(old(self).fed())
+	{ unimplemented!() }
+}
+impl GzEncoder<Vec<u8>> {
+	// std::io::Write::write: accepts SOME prefix of the data and says how long it was
+	#[verifier::external_body]
+	pub fn write(&mut self, data: &[u8]) -> (r: Result<usize, VErr>)
+		ensures r is Ok ==> r.unwrap() <= data@.len() && final(self).fed() == old(self).fed() + data@.subrange(0, r.unwrap() as int)
+	{ unimplemented!() }
+	#[verifier::external_body]
+	pub fn write_all(&mut self, data: &[u8]) -> (r: Result<(), VErr>)
+		ensures r is Ok ==> final(self).fed() == old(self).fed() + data@
+	{ unimplemented!() }
+	#[verifier::external_body]
+	pub fn finish(self) -> (r: Result<Vec<u8>, VErr>)
+		ensures r is Ok ==> dec_gzip(r.unwrap()@) == Some(self.fed())
 	{ unimplemented!() }
 }
 #[verifier::external_body] pub struct GzDecoder { }
